@@ -44,6 +44,16 @@ def parse_time(s):
     return f"{t.hour}:{t.minute}"
 
 
+def aligned_index(s):
+    """slot index 0..47 of a time string that strptime reads as a half-hour-aligned time, in WHATEVER spelling it accepts
+    ("7:00", "0:0", "00:0", full-width digits ...); None for anything else.  The statement speaks about times, not spellings."""
+    p = parse_time(s) if isinstance(s, str) else "x"
+    if p == "x":
+        return None
+    h, m = map(int, p.split(":"))
+    return (h * 60 + m) // 30 if m % 30 == 0 else None
+
+
 def state_token(st):
     return hexs(st.encode()) if isinstance(st, str) else hexs(b"<not-a-str>")
 
@@ -123,6 +133,20 @@ def gen_set_cases(rng, tier):
                 yield dict(cls="odd-time", pattern=bits(p), state=st, start=t, end="23:30", how="set_state")
                 yield dict(cls="odd-time", pattern=bits(p), state=st, start="00:00", end=t, how="set_state")
                 yield dict(cls="odd-time", pattern=bits(p), state=st, start=t, end=t, how="set_state")
+    # every ALIGNED time in every spelling strptime accepts (un-padded hour / minute, other decimal digits), as start and as end,
+    # against the midnight end in all its spellings and against aligned ends in a spelling of their own
+    def spellings(i):
+        h, m = divmod(i * 30, 60)
+        return sorted({f"{h:02d}:{m:02d}", f"{h}:{m}", f"{h:02d}:{m}", f"{h}:{m:02d}", f"{h:02d}:{m:02d}".translate(str.maketrans("0123456789", "０１２３４５６７８９")),
+                       f"{h}:{m}".translate(str.maketrans("0123456789", "٠١٢٣٤٥٦٧٨٩"))})
+    for p in pats[:2]:
+        for i in range(48):
+            for a in spellings(i):
+                for b in spellings(0):
+                    yield dict(cls="aligned-spelling", pattern=bits(p), state=rng.choice(STATES), start=a, end=b, how="set_state")
+                j = rng.randrange(48)
+                yield dict(cls="aligned-spelling", pattern=bits(p), state=rng.choice(STATES), start=a, end=rng.choice(spellings(j)), how="set_state")
+                yield dict(cls="aligned-spelling", pattern=bits(p), state=rng.choice(STATES), start=rng.choice(spellings(j)), end=a, how="set_state")
     # hand-made days of other lengths (outside the statement; the model says IndexError + partial edit)
     for n in list(range(0, 48)) + [49, 50, 56, 96]:
         for _ in range(4 if quick else 40):
@@ -170,9 +194,10 @@ def spec_set(c, after, out):
         return None if out == "ValueError" else "invalid state did not raise ValueError"
     if pa == "x" or pb == "x":
         return None if out == "ValueError" else "unparsable time did not raise ValueError"
-    if a in TIMES and b in TIMES:
-        lo = TIMES.index(a)
-        hi = 47 if b == "00:00" else TIMES.index(b)
+    ia, ib = aligned_index(a), aligned_index(b)
+    if ia is not None and ib is not None:
+        lo = ia
+        hi = 47 if ib == 0 else ib          # an end of 00:00 -- however it is spelled -- means the last slot of the day
         if hi <= lo:
             return None if out == "ValueError" else "end not after start did not raise ValueError"
         if out != "ok":
@@ -180,6 +205,11 @@ def spec_set(c, after, out):
         want = [(st in ON) if lo <= i <= hi else before[i] for i in range(48)]
         if after != want:
             return "slots changed are not exactly start..end set to the requested state"
+    else:
+        # any minutes: an end (other than 00:00, the end of the day) that is not after the start on the clock must raise
+        (sh, sm), (eh, em) = (map(int, pa.split(":")), map(int, pb.split(":")))
+        if eh * 60 + em != 0 and eh * 60 + em <= sh * 60 + sm and out != "ValueError":
+            return "end not after start did not raise ValueError"
     return None
 
 
@@ -197,12 +227,13 @@ def run_set_cases(cases, res):
     # the Lean predicate C18.specSet judges what the implementation did on aligned calls
     jreqs, jidx = [], {}
     for k, (c, (after, out, same)) in enumerate(zip(cases, obs)):
-        if c["start"] in TIMES and c["end"] in TIMES and len(c["pattern"]) == 48 and c["pattern"] != "-":
+        ia, ib = aligned_index(c["start"]), aligned_index(c["end"])
+        if ia is not None and ib is not None and len(c["pattern"]) == 48 and c["pattern"] != "-":
             st = c["state"]
             valid = isinstance(st, str) and st in STATES
             jidx[k] = len(jreqs)
-            jreqs.append(f"s.judgeset {c['pattern']} {int(valid)} {int(valid and st in ON)} {TIMES.index(c['start'])} "
-                         f"{TIMES.index(c['end'])} {int(out == 'ValueError')} {bits(after)}")
+            jreqs.append(f"s.judgeset {c['pattern']} {int(valid)} {int(valid and st in ON)} {ia} "
+                         f"{ib} {int(out == 'ValueError')} {bits(after)}")
     verdicts = driver_batch(jreqs)
     for k, (c, (after, out, same), ans) in enumerate(zip(cases, obs, answers)):
         res.count("set:" + c["cls"])
@@ -225,6 +256,149 @@ def run_set_cases(cases, res):
         if len(res.samples) < 4 and out == "ok" and c["cls"] in ("aligned", "unaligned") and not any(s.get("cls") == c["cls"] for s in res.samples) \
                 and c["start"] not in ("00:00",):
             res.sample(dict(cls=c["cls"], before=c["pattern"], state=c["state"], start=c["start"], end=c["end"], after=bits(after)))
+
+
+# ---------------------------------------------------------------------------------------------
+# part 1b: minute sweep -- set_state for every START minute of the day against (quick) the boundary ends of that start /
+# (thorough) ALL 1440 end minutes, on the real ScheduleDay; the model answers a whole start in one line (`s.setsweep`,
+# run-length encoded) and an oracle written from theorem C18.set_exact_unaligned (exact-minute comparison, exact-midnight
+# rule, floored slot indexes) judges each call as well.
+
+MINUTES = [f"{m // 60:02d}:{m % 60:02d}" for m in range(1440)]
+FULLWIDTH = str.maketrans("0123456789", "０１２３４５６７８９")
+ARABIC = str.maketrans("0123456789", "٠١٢٣٤٥٦٧٨٩")
+
+
+def sweep_combos():
+    """(day pattern, state): every written slot is visible on the first two; the other two have the opposite polarity on
+    half of the slots and use the synonyms"""
+    alt = [i % 2 == 0 for i in range(48)]
+    return [([False] * 48, "on"), ([True] * 48, "off"), (alt, "night"), ([not b for b in alt], "day")]
+
+
+def sweep_ends(s, full):
+    if full:
+        return list(range(1440))
+    e = set(range(0, 1440, 30)) | {0, 1, 29, 30, 31, 1409, 1410, 1411, 1439}
+    for d in (0, 1, 29, 30, 31):
+        for x in (s - d, s + d):
+            if 0 <= x < 1440:
+                e.add(x)
+    # the edges of the start's own slot and of its neighbours
+    for x in (s // 30 * 30 - 1, s // 30 * 30, s // 30 * 30 + 29, s // 30 * 30 + 30):
+        if 0 <= x < 1440:
+            e.add(x)
+    return sorted(e)
+
+
+def minute_oracle(before, st, s, e):
+    """theorem C18.set_exact_unaligned, in Python: (day afterwards, outcome)"""
+    e2 = 23 * 60 + 30 if e == 0 else e
+    if st not in STATES or e2 <= s:
+        return before, "ValueError"
+    lo, hi = s // 30, e2 // 30
+    return [(st in ON) if lo <= i <= hi else b for i, b in enumerate(before)], "ok"
+
+
+def run_minute_sweep(tier, res, starts=None):
+    full = tier != "quick"
+    combos = sweep_combos()
+    starts = list(range(1440)) if starts is None else starts
+    reqs, plans = [], []
+    for before, st in combos:
+        pat = bits(before)
+        for s in starts:
+            ends = sweep_ends(s, full)
+            reqs.append(f"s.setsweep {pat} {state_token(st)} {s} " + ("all" if full else ",".join(map(str, ends))))
+            plans.append((before, pat, st, s, ends))
+    answers = driver_batch(reqs)
+    bits_cache = {}
+    n_calls = n_ok = n_aligned = n_sameslot = n_early = 0
+    for (before, pat, st, s, ends), ans in zip(plans, answers):
+        a = MINUTES[s]
+        runs = []      # run-length encoding of what the implementation did, in the driver's format
+        toks = []
+        for e in ends:
+            day = ScheduleDay(list(before))
+            try:
+                day.set_state(st, a, MINUTES[e])
+                out = "ok"
+            except Exception as ex:  # noqa: BLE001
+                out = type(ex).__name__
+            after = day.intervals
+            key = tuple(after)
+            b = bits_cache.get(key)
+            if b is None:
+                b = bits_cache[key] = bits(after)
+            tok = f"{b}:{out}"
+            toks.append(tok)
+            if runs and runs[-1][1] == tok:
+                runs[-1][0] += 1
+            else:
+                runs.append([1, tok])
+            # the oracle of the theorem, call by call
+            want_after, want_out = minute_oracle(before, st, s, e)
+            if out != want_out or after != want_after:
+                c = dict(part="set", cls="minute-sweep", pattern=pat, state=st, start=a, end=MINUTES[e], how="set_state")
+                clause = spec_set(c, list(after), out)      # the statement: aligned pairs, inert ValueError, end not after start
+                if clause:
+                    res.fail("spec", c, dict(after=bits(want_after), outcome=want_out), dict(after=bits(after), outcome=out), clause)
+                else:
+                    res.fail("corr", c, dict(after=bits(want_after), outcome=want_out), dict(after=bits(after), outcome=out),
+                             "set_state with non-aligned minutes differs from C18.set_exact_unaligned (exact-minute comparison, "
+                             "exact-midnight rule, floored slot indexes)")
+            n_calls += 1
+            if out == "ok":
+                n_ok += 1
+                e2 = 1410 if e == 0 else e
+                if s // 30 == e2 // 30:
+                    n_sameslot += 1
+            if s % 30 == 0 and e % 30 == 0:
+                n_aligned += 1
+            if 0 < e < 30:
+                n_early += 1
+        got = " ".join(f"{n}*{t}" for n, t in runs)
+        if got != ans:
+            # locate the first end on which model and implementation differ
+            model = []
+            for r in ans.split(" "):
+                n, _, t = r.partition("*")
+                model += [t] * (int(n) if n.isdigit() else 0)
+            k = next((i for i, (x, y) in enumerate(zip(toks, model)) if x != y), min(len(toks), len(model)))
+            e = ends[k] if k < len(ends) else None
+            c = dict(part="set", cls="minute-sweep", pattern=pat, state=st, start=a, end=MINUTES[e] if e is not None else None,
+                     how="set_state")
+            res.fail("corr", c, model[k] if k < len(model) else ans[:80], toks[k] if k < len(toks) else None,
+                     "model (s.setsweep) and ScheduleDay.set_state differ")
+    res.evaluations += n_calls
+    res.nontrivial.add(("minute-sweep", tier, n_ok))
+    res.count("set:minute-sweep", n_calls)
+    res.count("set:minute-sweep ok", n_ok)
+    res.count("set:minute-sweep aligned pairs", n_aligned)
+    res.count("set:minute-sweep ok within one slot", n_sameslot)
+    res.count("set:minute-sweep end in 00:01..00:29", n_early)
+    res.extra["minute_sweep"] = dict(
+        starts=len(starts), ends_per_start="all 1440" if full else "every aligned end + start±{0,1,29,30,31} + slot edges + "
+        "00:00/00:01/00:29/00:30/00:31/23:29/23:30/23:31/23:59", combos=[f"{bits(b)}/{st}" for b, st in combos], calls=n_calls,
+        complete_1440x1440=bool(full and len(starts) == 1440))
+    if len(starts) == 1440:
+        res.extra["all_start_minutes_enumerated"] = True
+    if full and len(starts) == 1440:
+        res.extra["minute_pairs_enumerated_completely"] = True
+    # spellings strptime accepts: every minute of the day written without padding / with other decimal digits, as start and as end
+    cases = []
+    alt = bits([i % 2 == 0 for i in range(48)])
+    for m in range(1440):
+        h, mi = divmod(m, 60)
+        forms = {f"{h}:{mi}", f"{h:02d}:{mi}", f"{h}:{mi:02d}", MINUTES[m].translate(FULLWIDTH), f"{h}:{mi}".translate(ARABIC)}
+        forms.discard(MINUTES[m])
+        for k, t in enumerate(sorted(forms)):
+            if full or (m + k) % 4 == 0 or m < 60 or m % 30 in (0, 1, 29):
+                cases.append(dict(cls="spelling", pattern=alt, state="on" if k % 2 else "off", start=t, end="00:00", how="set_state"))
+                cases.append(dict(cls="spelling", pattern=alt, state="day" if k % 2 else "night", start="00:00", end=t, how="set_state"))
+                cases.append(dict(cls="spelling", pattern=alt, state="on", start=t, end=MINUTES[min(1439, m + 1)].translate(FULLWIDTH),
+                                  how="set_state"))
+    run_set_cases(cases, res)
 
 
 # ---------------------------------------------------------------------------------------------
@@ -1080,6 +1254,8 @@ def run(ctx):
     from common import Parts
     parts = Parts(res)
     parts.run("set_state", run_set_cases, set_cases, res)
+    if not ctx.get("max_cases"):
+        parts.run("set_state minute sweep", run_minute_sweep, ctx["tier"], res)
     parts.run("receive / edit / commit", run_commit_cases, commit_cases, res)
     parts.run("histories with a write queue", run_history_cases, hist_cases, res)
     parts.run("histories with kept objects", run_heap_cases, heap_cases, res)
